@@ -1600,6 +1600,11 @@ class LangServer:
         except FileNotFoundError:
             self.post_message(f"Configuration file '{self.config}' not found")
 
+        # Unreadable file: permissions, I/O error, ...
+        except OSError as e:
+            msg = f'Error: "{e}" while reading "{self.config}" Configuration file'
+            self.post_message(msg)
+
         # Erroneous json file syntax
         except ValueError as e:
             msg = f'Error: "{e}" while reading "{self.config}" Configuration file'
